@@ -1,9 +1,10 @@
 /-
 Model of the `sort` comparator (C05), mirroring pkg/segment/query/processor/sortcommand.go AS IT IS:
 
-  compareFloat (121-131)    EQUAL when dtypeutils.AlmostEquals(a, b), i.e. math.Abs(a - b) < 0.0001
-                            (pkg/common/dtypeutils/dtypeutils.go:664; literal tied by the go2lean fact
-                            `AlmostEquals.literals`), otherwise a < b ? LESS : GREATER
+  compareFloat (121-141)    exact: a == b → EQUAL, a < b → LESS, NaN after every number and equal to NaN,
+                            otherwise GREATER.  (Until the fix of C05 it was `dtypeutils.AlmostEquals(a, b)`, i.e.
+                            math.Abs(a - b) < 0.0001, → EQUAL; that comparator is kept below as `compareFloatOld`
+                            only to state what was wrong with it.)
   compareString (133-143)   byte-wise string order
   getRank (145-182)         numeric < string < other; strings that look like floats (utils.MightBeFloat +
                             strconv.ParseFloat) are numeric under num / auto / ""
@@ -12,8 +13,8 @@ Model of the `sort` comparator (C05), mirroring pkg/segment/query/processor/sort
 
 Values (`sutils.CValueEnclosure`): signed/unsigned integers, float64, strings, bool, backfill.
 float64 arithmetic is not re-implemented in the statements: the rounding function `rnd : Rat → Rat`
-(round-to-nearest-even to binary64; used by `float64(int)`, by `a - b` and for the literal 0.0001) is a
-PARAMETER of the model.  The Oracle instantiates it with `roundF64` below; the correspondence run checks that
+(round-to-nearest-even to binary64; used by `float64(int)`, and by `a - b` and the literal 0.0001 of the OLD
+comparator) is a PARAMETER of the model.  The Oracle instantiates it with `roundF64` below; the correspondence run checks that
 instance against the Go arithmetic.  Overflow to ±Inf inside `a - b` is not modelled (generators stay far
 below 2^1000).  External library results travel with the value: `strconv.ParseFloat(s, 64)` for a string
 (`pf`, none = error) and `fmt.Sprintf("%f", f)` for a float (`txt`).
@@ -39,6 +40,33 @@ def Flt.lt : Flt → Flt → Bool
   | .ninf, _ => true
   | .fin a, .fin b => decide (a < b)
 
+/-- Go `a == b` on float64 (NaN is equal to nothing, -0 == +0) -/
+def Flt.eq : Flt → Flt → Bool
+  | .pinf, .pinf => true
+  | .ninf, .ninf => true
+  | .fin a, .fin b => decide (a = b)
+  | _, _ => false
+
+def Flt.isNaN : Flt → Bool
+  | .nan => true
+  | _ => false
+
+inductive Cmp where
+  | equal
+  | less
+  | greater
+deriving DecidableEq, Repr
+
+/-- `compareFloat` -/
+def compareFloat (a b : Flt) : Cmp :=
+  if a.eq b then .equal
+  else if a.lt b then .less
+  else if a.isNaN || b.isNaN then
+    (if a.isNaN && b.isNaN then .equal else if b.isNaN then .less else .greater)
+  else .greater
+
+/-! #### the comparator before the fix (kept for the counterexample theorems only) -/
+
 def absR (x : Rat) : Rat := if x < 0 then -x else x
 
 /-- the literal `tolerance := 0.0001` in dtypeutils.AlmostEquals -/
@@ -50,14 +78,8 @@ def almostEq (rnd : Rat → Rat) : Flt → Flt → Bool
   | .fin a, .fin b => decide (absR (rnd (a - b)) < rnd tolerance)
   | _, _ => false
 
-inductive Cmp where
-  | equal
-  | less
-  | greater
-deriving DecidableEq, Repr
-
-/-- `compareFloat` -/
-def compareFloat (rnd : Rat → Rat) (a b : Flt) : Cmp :=
+/-- `compareFloat` as it was: EQUAL when AlmostEquals -/
+def compareFloatOld (rnd : Rat → Rat) (a b : Flt) : Cmp :=
   if almostEq rnd a b then .equal else if a.lt b then .less else .greater
 
 def bytesLt : List Nat → List Nat → Bool
@@ -139,8 +161,8 @@ def Cmp.flip : Cmp → Cmp
   | .greater => .less
   | .equal => .equal
 
-/-- `compareValues` -/
-def compareValues (rnd : Rat → Rat) (a b : Val) (asc : Bool) (op : SortOp) : Cmp :=
+/-- `compareValues`, with the float comparison it calls as a parameter -/
+def compareValuesWith (cf : Flt → Flt → Cmp) (rnd : Rat → Rat) (a b : Val) (asc : Bool) (op : SortOp) : Cmp :=
   let ra := getRank a op
   let rb := getRank b op
   if ra = .other && rb = .other then .equal
@@ -155,17 +177,27 @@ def compareValues (rnd : Rat → Rat) (a b : Val) (asc : Bool) (op : SortOp) : C
         match floatOf rnd a, floatOf rnd b with
         | none, _ => .greater          -- early `return GREATER`, not flipped (unreachable for rank numeric)
         | some _, none => .less        -- early `return LESS`
-        | some fa, some fb => flipIf (compareFloat rnd fa fb)
+        | some fa, some fb => flipIf (cf fa fb)
       | .string => flipIf (compareString (strOf a) (strOf b))
       | .other => flipIf .less
 
+/-- `compareValues` -/
+def compareValues (rnd : Rat → Rat) (a b : Val) (asc : Bool) (op : SortOp) : Cmp :=
+  compareValuesWith compareFloat rnd a b asc op
+
 /-- `sortProcessor.less`: records are the lists of their sort-key values, parallel to the keys -/
-def less (rnd : Rat → Rat) : List (Bool × SortOp) → List Val → List Val → Bool
+def lessWith (cf : Flt → Flt → Cmp) (rnd : Rat → Rat) : List (Bool × SortOp) → List Val → List Val → Bool
   | (asc, op) :: ks, a :: as, b :: bs =>
-    match compareValues rnd a b asc op with
-    | .equal => less rnd ks as bs
+    match compareValuesWith cf rnd a b asc op with
+    | .equal => lessWith cf rnd ks as bs
     | c => c == .less
   | _, _, _ => false
+
+def less (rnd : Rat → Rat) : List (Bool × SortOp) → List Val → List Val → Bool := lessWith compareFloat rnd
+
+/-- `less` before the fix -/
+def lessOld (rnd : Rat → Rat) : List (Bool × SortOp) → List Val → List Val → Bool :=
+  lessWith (compareFloatOld rnd) rnd
 
 /-! ### the concrete rounding used by the Oracle -/
 
